@@ -381,9 +381,16 @@ def get_reduction_induction_variables(expr: Expression) -> AbstractSet[str]:
 
 def is_quasi_affine(expr: Expression) -> bool:
     import islpy as isl
+    from pymbolic.mapper import UnsupportedExpressionError
+    try:
+        deps = list(get_dependencies(expr))
+    except UnsupportedExpressionError:
+        # *expr* may be a loopy expression holding a node this mapper does not
+        # know (e.g. a reduction): certainly not quasi-affine.
+        return False
     space = isl.Space.create_from_names(
         isl.DEFAULT_CONTEXT,
-        set=list(get_dependencies(expr)),
+        set=deps,
         )
     try:
         # pass vars_to_zero explicitly: its default (None) is not accepted by
